@@ -493,3 +493,32 @@ def r05_2_wrappers(chk, dp):
         ("background" in kw and kw["background"].key() == "background" and "background" in ev.param_names)
     chk.ob("R05.2", DP, q, "a background density given by the caller reaches the constructor", okbg, node=call[0].node, fingerprint="background",
            expected="cls(..., **kwargs) or background=background", found=str({k: str(v) for k, v in kw.items()}))
+    # ... and when the caller gave none, the constructor's own default applies: the keyword mapping is forwarded as received (no
+    # setdefault / update / item store puts a background into it), and a named `background` parameter has the constructor's default
+    touched = []
+    if vk is not None:
+        for e in ev.events:
+            if e.kind == "call" and e.target is not None and e.target.key() in (f"{vk}.setdefault", f"{vk}.update", f"{vk}.__setitem__"):
+                a0 = (e.extra.get("args") or [None])[0]
+                if not (e.target.key() != f"{vk}.update" and a0 is not None and a0.as_atom() and a0.as_atom()[0] == "str" and a0.as_atom()[1] != "background"):
+                    touched.append(str(e.value)[:80])
+            if e.kind in ("store", "aug") and e.target is not None and e.target.key().startswith(f"{vk}[") and not (
+                    e.target.as_atom()[2][0].as_atom() and e.target.as_atom()[2][0].as_atom()[0] == "str" and e.target.as_atom()[2][0].as_atom()[1] != "background"):
+                touched.append(str(e.target)[:40] + " = " + str(e.value)[:40])
+            if e.kind == "assign" and e.name == vk:
+                touched.append(f"{vk} = {str(e.value)[:60]}")
+    def _default(fnode, name):
+        names = [a.arg for a in fnode.args.args]
+        if name in names:
+            i = names.index(name) - (len(names) - len(fnode.args.defaults))
+            return ast.dump(fnode.args.defaults[i]) if i >= 0 else None
+        for a, d in zip(fnode.args.kwonlyargs, fnode.args.kw_defaults):
+            if a.arg == name:
+                return ast.dump(d) if d is not None else None
+        return "<absent>"
+    init = dp.func("StockholderWeight.__init__")
+    d_init, d_here = _default(init, "background"), _default(fn, "background")
+    same_default = d_here == "<absent>" or d_here == d_init
+    chk.ob("R05.2", DP, q, "when the caller names no background the constructor's own default applies (the forwarded keywords are not given one, "
+           "and a named background parameter has the constructor's default)", not touched and same_default, node=call[0].node,
+           fingerprint="background-default", expected="kwargs forwarded as received", found=touched or [d_here, d_init])
